@@ -295,8 +295,9 @@ class DigitalLineScaler(object):
 
     def postprocess_data(self, data):
         bit_offset = self.raw_bit_offset % 8
-        bitmask = 1 << bit_offset
-        return np.right_shift(np.bitwise_and(data, bitmask), bit_offset)
+        # Shift before masking: a mask of 1 fits every integer type, whereas 1 << 7
+        # is out of range for int8 data
+        return np.bitwise_and(np.right_shift(data, bit_offset), 1)
 
     def __repr__(self):
         properties = (
